@@ -74,7 +74,10 @@ pub enum AGuard { Wild, NameCmpName(usize, Cmp, usize), NameCmpConst(usize, Cmp,
 #[derive(Clone, Debug, Serialize, Deserialize, PartialEq)]
 pub struct AArm { pub pat: APat, pub branches: Vec<(AGuard, ATarget)> }
 #[derive(Clone, Debug, Serialize, Deserialize, PartialEq)]
-pub struct Array2 { pub start_acc: u64, pub arms: Vec<AArm> }
+pub struct Array2 { pub start_acc: u64, pub arms: Vec<AArm>,
+  /// the machine's input is declared with a sized matrix kind `xs<[u64]:1,N>`: only row vectors of
+  /// exactly N elements are arguments of the declared kind
+  #[serde(default)] pub sized: Option<usize> }
 
 const ENAMES: [&str; 5] = ["a", "b", "c", "d", "e"];
 
@@ -95,7 +98,9 @@ pub struct Machine {
 }
 
 #[derive(Clone, Debug, Serialize, Deserialize)]
-pub enum Invocation { Ok(Vec<u64>), WrongKind(Vec<u64>, usize, String), WrongCount(Vec<u64>) }
+pub enum Invocation { Ok(Vec<u64>), WrongKind(Vec<u64>, usize, String), WrongCount(Vec<u64>),
+  /// sized array machines only: a u64 vector of another length than declared, or (true) a column vector
+  WrongShape(Vec<u64>, bool) }
 // for the array family `Ok(v)` is the input vector; WrongKind(v, _, kind) passes a vector of another
 // element kind ("f64" = untyped literals); WrongCount(v) passes the vector and an extra scalar
 
@@ -186,8 +191,9 @@ fn aguard_text(g: &AGuard) -> String {
   match g { AGuard::Wild => "*".to_string(), AGuard::NameCmpName(i, c, j) => format!("{} {} {}", ENAMES[*i], cmp_text(c), ENAMES[*j]), AGuard::NameCmpConst(i, c, k) => format!("{} {} {}u64", ENAMES[*i], cmp_text(c), k), AGuard::AccCmpConst(c, k) => format!("acc {} {}u64", cmp_text(c), k) }
 }
 fn render_array2(a: &Array2) -> String {
-  let mut s = String::from("#M(xs<[u64]>) => <u64>\n  ├ :Scan(xs<[u64]>, acc<u64>)\n  └ :Done(out<u64>).\n\n");
-  s.push_str(&format!("#M(xs<[u64]>) -> :Scan(xs, {}u64)\n", a.start_acc));
+  let xs_kind = match a.sized { Some(n) => format!("[u64]:1,{}", n), None => "[u64]".to_string() };
+  let mut s = format!("#M(xs<{}>) => <u64>\n  ├ :Scan(xs<[u64]>, acc<u64>)\n  └ :Done(out<u64>).\n\n", xs_kind);
+  s.push_str(&format!("#M(xs<{}>) -> :Scan(xs, {}u64)\n", xs_kind, a.start_acc));
   for arm in &a.arms {
     if arm.branches.len() == 1 && arm.branches[0].0 == AGuard::Wild {
       s.push_str(&format!("  :Scan({}, acc) -> {}\n", apat_text(&arm.pat), atarget_text(&arm.branches[0].1)));
@@ -320,7 +326,7 @@ fn gen_array2(rng: &mut Rng) -> Array2 {
     }
     if !arms.iter().any(|a| a.pat == APat::Empty) { arms.push(AArm { pat: APat::Empty, branches: vec![(AGuard::Wild, ATarget::Done(AAcc::AddConst(*rng.pick(&[0u64, 1, 7]))))] }); }
   }
-  Array2 { start_acc: *rng.pick(&[0u64, 0, 1, 10]), arms }
+  Array2 { start_acc: *rng.pick(&[0u64, 0, 1, 10]), arms, sized: if rng.chance(1, 4) { Some(1 + rng.usize(5)) } else { None } }
 }
 
 impl Machine {
@@ -367,12 +373,14 @@ fn render_invocation_for(m: &Machine, inv: &Invocation) -> String {
     Invocation::Ok(v) => format!("#M({})", vec_of(v, "u64")),
     Invocation::WrongKind(v, _, kind) => format!("#M({})", vec_of(v, if kind == "i64" { "u8" } else { kind })),
     Invocation::WrongCount(v) => format!("#M({}, 1u64)", vec_of(v, "u64")),
+    Invocation::WrongShape(v, false) => format!("#M({})", vec_of(v, "u64")),
+    Invocation::WrongShape(v, true) => format!("#M([{}])", v.iter().map(|x| format!("{}u64", x)).collect::<Vec<_>>().join("; ")),
   }
 }
 
 fn render_invocation(inv: &Invocation) -> String {
   match inv {
-    Invocation::Ok(v) | Invocation::WrongCount(v) => format!("#M({})", v.iter().map(|x| format!("{}u64", x)).collect::<Vec<_>>().join(", ")),
+    Invocation::Ok(v) | Invocation::WrongCount(v) | Invocation::WrongShape(v, _) => format!("#M({})", v.iter().map(|x| format!("{}u64", x)).collect::<Vec<_>>().join(", ")),
     Invocation::WrongKind(v, pos, kind) => format!("#M({})", v.iter().enumerate().map(|(i, x)| if i == *pos { match kind.as_str() { "f64" => format!("{}", x), k => format!("{}<{}>", x, k) } } else { format!("{}u64", x) }).collect::<Vec<_>>().join(", ")),
   }
 }
@@ -553,11 +561,20 @@ pub fn plan(seed: u64, k: u64) -> Plan {
   let n_inv = 2 + rng.usize(4);
   let mut invocations = vec![];
   for _ in 0..n_inv {
-    let vals: Vec<u64> = if machine.is_array() { let n = 1 + rng.usize(5); (0..n).map(|_| *rng.pick(&[0u64, 1, 2, 3, 5, 7])).collect() } else { (0..machine.arity).map(|_| *rng.pick(&[0u64, 0, 1, 2, 3, 4, 5, 7, 10])).collect() };
+    let sized = machine.array2.as_ref().and_then(|a| a.sized);
+    let vals: Vec<u64> = if machine.is_array() { let n = sized.unwrap_or(1 + rng.usize(5)); (0..n).map(|_| *rng.pick(&[0u64, 1, 2, 3, 5, 7])).collect() } else { (0..machine.arity).map(|_| *rng.pick(&[0u64, 0, 1, 2, 3, 4, 5, 7, 10])).collect() };
     let budget = *rng.pick(&[1usize, 2, 3, 5, 8, 13, 30, 100, 1000]);
     let inv = match rng.below(12) {
       0 => { let pos = rng.usize(vals.len()); Invocation::WrongKind(vals, pos, rng.pick(&["f64", "u8", "i64", "u32"]).to_string()) }
       1 => { let mut v = vals.clone(); if !machine.is_array() { if rng.chance(1, 2) || v.len() == 1 { v.push(1); } else { v.pop(); } } Invocation::WrongCount(v) }
+      2 | 3 if sized.is_some() => {
+        // another length than declared (one more, one less, many more), or a column of the declared length
+        let n = sized.unwrap();
+        if n >= 2 && rng.chance(1, 3) { Invocation::WrongShape(vals, true) } else {
+          let m = match rng.below(3) { 0 => n + 1, 1 if n >= 2 => n - 1, _ => n + 2 + rng.usize(3) };
+          Invocation::WrongShape((0..m).map(|_| *rng.pick(&[0u64, 1, 2, 3, 5, 7])).collect(), false)
+        }
+      }
       _ => Invocation::Ok(vals),
     };
     invocations.push((inv, budget));
@@ -671,9 +688,9 @@ fn execute_on_thread(pl: &Plan, progress: &std::sync::Arc<std::sync::Mutex<(Stri
     // ---- expectations
     let mut found: Option<Violation> = None;
     match inv {
-      Invocation::WrongKind(..) | Invocation::WrongCount(_) => {
-        bump(&mut counters, if matches!(inv, Invocation::WrongKind(..)) { "fault:wrong-argument-kind" } else { "fault:wrong-argument-count" }, 1);
-        if outcome.is_ok() { found = Some(vio("ill-formed-invocation-accepted", if matches!(inv, Invocation::WrongKind(..)) { "argument-kind" } else { "argument-count" }, format!("`{}` was accepted: {}", inv_text, outcome.show()))); }
+      Invocation::WrongKind(..) | Invocation::WrongCount(_) | Invocation::WrongShape(..) => {
+        bump(&mut counters, match inv { Invocation::WrongKind(..) => "fault:wrong-argument-kind", Invocation::WrongShape(..) => "fault:wrong-argument-shape", _ => "fault:wrong-argument-count" }, 1);
+        if outcome.is_ok() { found = Some(vio("ill-formed-invocation-accepted", match inv { Invocation::WrongKind(..) => "argument-kind", Invocation::WrongShape(..) => "argument-shape", _ => "argument-count" }, format!("`{}` was accepted: {}", inv_text, outcome.show()))); }
         if let Outcome::Escaped { msg, .. } = &outcome { found = Some(vio("host-aborted", "panic-escaped", format!("panic escaped interpret(): {}", msg))); }
       }
       Invocation::Ok(vals) => {
